@@ -1,3 +1,4 @@
+import Peppi.JsonText
 import Peppi.Tar
 import Peppi.ReadStream
 import Peppi.Write
@@ -174,6 +175,15 @@ partial def loop (h : IO.FS.Stream) : IO Unit := do
        | .ok back => IO.println s!"ok {kvsDump m} rest={rest.length} back={hexOf back}"
        | .err e => IO.println s!"err {e}"
        | .panic p => IO.println s!"panic {p}")
+    | .err e => IO.println s!"err {e}"
+    | .panic p => IO.println s!"panic {p}"
+  | ["jsonw", hex] =>
+    -- the JSON text of the metadata tree (model of serde_json::to_vec), and whether the model's reader returns the tree from it
+    match readMap validUtf8 (parseHex hex) with
+    | .ok (m, _) =>
+      let j := jsonMeta (some m)
+      let back := match parseMeta j with | .ok (some m') => kvsDump m' == kvsDump m | _ => false
+      IO.println s!"ok {hexOf j} back={back}"
     | .err e => IO.println s!"err {e}"
     | .panic p => IO.println s!"panic {p}"
   | ["start", sj, hex] =>
